@@ -11,7 +11,7 @@
 From Coq Require Import ZArith List Bool Sorted.
 From V Require Import Model.ZMap Model.Quorum Model.HgImpl Model.PeerSetSpec
   Proofs.BlockInv Proofs.HgBlockFrames Proofs.PeerSetProofs Proofs.TidyRR
-  Proofs.AdmissionProofs Proofs.OrderProofs Proofs.Agreement Proofs.WindowWitness Model.Window Proofs.LrMono Proofs.WindowStable.
+  Proofs.AdmissionProofs Proofs.OrderProofs Proofs.Agreement Proofs.WindowWitness Model.Window Proofs.LrMono Proofs.WindowStable Proofs.GapWindow.
 Import ListNotations.
 Open Scope Z_scope.
 
@@ -228,6 +228,26 @@ Theorem C10_window_lookup_final_step : forall self_ genesis oracle_ ops k r,
 Proof. exact (fun s g o ops k r Hs => window_lookup_final_step s g o Hs ops k r). Qed.
 Print Assumptions C10_window_lookup_final_step.
 
+(* A sufficient condition a node can CHECK LOCALLY AND ENFORCE: after every step the last round is at most
+   5 above the next round that was to be processed before the step ([gap_runb], Model/Window.v gap_stepb;
+   the invariant of the gate "do not divide more than 6 rounds ahead of consensus").  It implies the window
+   premise - the blocks a step delivers have a round-received above the previous last consensus round and
+   write at round-received + 6 - and, unlike the window premise on the run so far, it constrains every
+   future block as well. *)
+Theorem C10_gap_implies_window : forall self_ genesis oracle_ ops,
+  self_ <> -1 -> gap_runb (init_hg self_ genesis oracle_) ops = true ->
+  window_runb (init_hg self_ genesis oracle_) ops = true.
+Proof. exact (fun s g o ops Hs => gap_run_window s g o Hs ops []). Qed.
+Print Assumptions C10_gap_implies_window.
+
+Theorem C10_gap_lookup_final : forall self_ genesis oracle_ ops k r,
+  self_ <> -1 -> gap_runb (init_hg self_ genesis oracle_) ops = true ->
+  r <= last_round (hrun (init_hg self_ genesis oracle_) (firstn k ops)) ->
+  get_peerset (hrun (init_hg self_ genesis oracle_) (firstn k ops)) r =
+  get_peerset (hrun (init_hg self_ genesis oracle_) ops) r.
+Proof. exact gap_lookup_final. Qed.
+Print Assumptions C10_gap_lookup_final.
+
 (* last_round never decreases along a run (used above; any events, any membership) *)
 Theorem C10_last_round_monotone : forall st ops, last_round st <= last_round (hrun st ops).
 Proof. exact (fun st ops => hrun_lrq_le ops st). Qed.
@@ -276,5 +296,7 @@ Proof. vm_compute. repeat split; reflexivity. Qed.
    window-fork history (node A of Proofs/WindowWitness.v) *)
 Example C10_example_window :
   window_runb (init_hg 0 c10_g [7; 8; 9]) c10_ops = true /\
-  window_runb (init_hg 0 ww_g []) (map HInsert ww_all) = false.
+  gap_runb (init_hg 0 c10_g [7; 8; 9]) c10_ops = true /\
+  window_runb (init_hg 0 ww_g []) (map HInsert ww_all) = false /\
+  gap_runb (init_hg 0 ww_g []) (map HInsert ww_all) = false.
 Proof. vm_compute. repeat split; reflexivity. Qed.
